@@ -183,7 +183,7 @@ def set_position_discipline(ctx, F):
                 okv = "Piece::score(" in rt and "self.piece_scores" in rt and "unwrap_or" in rt and "0)" in rt
                 seq.append(("store", "past_scores", "score(new)" if okv else rt))
             elif tgt == "past_hashes":
-                okv = "Piece::hash(" in rt and "EMPTY_PLACE" in rt
+                okv = "Piece::hash(" in rt and "unwrap_or" in rt     # which key an empty square gets is C04's business
                 seq.append(("store", "past_hashes", "key(new)" if okv else rt))
     want = [("hash", "^=", "past_hashes"), ("score", "-=", "past_scores"), ("store", "board", "new"),
             ("store", "past_scores", "score(new)"), ("store", "past_hashes", "key(new)"),
